@@ -164,7 +164,9 @@ def check(run: Run) -> None:
                 if f == "sections" and v is not None:
                     # sections derive from the source document's sections
                     src = expand(v, _single_defs(fi))
-                    ok = f"{pdoc}.sections" in ast.unparse(src) or "doc_without_seal.sections" in ast.unparse(v)
+                    # ... directly, or through the local bound from _remove_seal_section(<source doc>) (whatever it is called)
+                    stripped = {a.targets[0].id for a in walk_no_nested(fi.node) if isinstance(a, ast.Assign) and len(a.targets) == 1 and isinstance(a.targets[0], ast.Name) and isinstance(a.value, ast.Call) and ast.unparse(a.value.func) == "_remove_seal_section" and a.value.args and is_name(a.value.args[0], pdoc)}
+                    ok = f"{pdoc}.sections" in ast.unparse(src) or any(f"{x}.sections" in ast.unparse(v) or f"{x}.sections" in ast.unparse(src) for x in stripped)
                 run.instance("R15.3", mod.loc(call), f"{fi.qualname}: Document(... {f}=...) taken from {pdoc}.{f}", ok=ok)
                 if not ok:
                     run.violation("R15.3", mod, fi.qualname, f"Document(...) without {f}", f"the document copy built in {fi.qualname} does not carry `{f}` from the source document: that part of the content is lost by sealing and is not covered by the hash",
@@ -205,8 +207,10 @@ def check(run: Run) -> None:
     ok = False
     if hash_assign:
         v = [k.value for k in hash_assign[0].keywords if k.arg == "value"][0]
+        # <local bound from compute_seal(...)>['HASH'] (optionally .strip('"'))
+        digest_vars = {a.targets[0].id for a in walk_no_nested(seal.node) if isinstance(a, ast.Assign) and len(a.targets) == 1 and isinstance(a.targets[0], ast.Name) and isinstance(a.value, ast.Call) and ast.unparse(a.value.func) == "compute_seal"}
         src = ast.unparse(v)
-        ok = src in ("seal_data['HASH'].strip('\"')", "seal_data['HASH']")
+        ok = any(src in (f"{d}['HASH'].strip('\"')", f"{d}['HASH']") for d in digest_vars)
     run.instance("R15.4", mod.loc(seal.node), "seal_document: the HASH assignment stores compute_seal's digest", ok=ok)
     if not ok:
         run.violation("R15.4", mod, seal.qualname, "Assignment(key='HASH', ...)", "the stored HASH is not compute_seal's digest (through at most strip of the quotes)")
